@@ -381,6 +381,10 @@ def _is_min_of_remaining(v, func=None):
 
 def MUTANTS(ctx):
     out = [
+        dict(id="c04-replacement-shares-order-type", file="flumine/order/trade.py", func="Trade.create_order_replacement",
+             old="        order_type = LimitOrder(\n            price=new_price,\n            size=size,\n            persistence_type=order.order_type.persistence_type,\n        )\n",
+             new="        order_type = order.order_type\n        order_type.price = new_price\n        order_type.size = size\n", expect=["R2"],
+             why="the replaced order's requested size is overwritten by the replacement's"),
         dict(id="c04-drop-lapsed-from-remaining", file=SIM, func="SimulatedOrder.size_remaining",
              old="                - self.size_lapsed\n", new="", expect=["R1"], why="lapsed size still counted as remaining"),
         dict(id="c04-cancel-unclamped", file=SIM, func="SimulatedOrder.cancel",
